@@ -47,7 +47,7 @@ REQUIRED = ["op_get_subtree", "op_node_subtree", "op_to_subtree", "op_cut_enter"
             "transform_instance_reused", "numpy_scalar_node_ids", "removals_as_iterator_or_set",
             "mappings_checked", "mapping_container_reused", "transform_reused_after_aborted_call", "tip_exact_threshold_cases", "exhaustive_subsets",
             "tap_to_sub_topology", "tap_propagate_removal", "tap_get_subtree_impl"]
-FLOOR = {"quick": 2500, "thorough": 50000}
+FLOOR = {"quick": 2500, "thorough": 300000}
 SHARDS = {"quick": 8, "thorough": 16}
 
 ATTRS = ["type", "x", "y", "z", "r"]
@@ -471,7 +471,7 @@ def run(ctx):
 
 def _workload(ctx):
     rng = ctx.rng
-    n_trees = ctx.scale(330, 7000)
+    n_trees = ctx.scale(330, 42000)
     for k in range(n_trees):
         rc = G.random_recipe(rng, max_n=G.size_ladder(ctx, k, 9, 40, 250),
                              extras=int(rng.integers(0, 3)))
